@@ -1,16 +1,15 @@
 (** C18: the in-memory, LevelDB and prefix-namespaced backends behave as the same sorted map.
     Models in KV.v, proofs in KVFacts.v.  Statements are restated in full.
 
-    REFUTED parts (faithful models, confirmed on the Go code):
-    - [cpIncr p] keeps the length of [p]: for a prefix ending in 0xFF the range [p, cpIncr p) also
-      contains keys that do not carry the prefix ([C18_cpIncr_refuted]; exact characterisation
-      [C18_cpIncr]).
-    - Consequently [PrefixDB.ReverseIterator(start, nil)] of a namespace whose prefix ends in 0xFF
-      (and is not all 0xFF) is EMPTY as soon as the underlying store holds such a foreign key
-      ([C18_prefix_riter_refuted]); a write through a disjoint sibling namespace can create it
-      ([C18_prefix_isolation_refuted]).  [C18_prefix_view] holds under [op_guard], which is
-      [True] for every operation except [KRIter _ None], and holds for that one whenever the
-      prefix does not end in 0xFF or is all 0xFF ([C18_prefix_guard]). *)
+    [cpIncr] is modelled as fixed by commit 179067f (the bound is the incremented prefix WITHOUT
+    the zeroed tail).  Before that fix [cpIncr [115;255] = [116;0]], the range [p, cpIncr p)
+    contained the foreign key [116], and [PrefixDB.ReverseIterator(start, nil)] of such a
+    namespace was empty; the former counterexamples are now the positive examples
+    [C18_fixed_riter] and [C18_fixed_isolation].
+
+    Remaining deviations from the informal C18 text, modelled faithfully:
+    [GoLevelDB.Has] of an empty key answers [false] instead of an error ([C18_backend_steps]);
+    a PrefixDB with an empty prefix panics / errors on nil bounds ([C18_views]). *)
 From IAVL Require Import Bytes VMap KV KVFacts.
 Local Open Scope N_scope.
 
@@ -29,29 +28,18 @@ Theorem C18_cpIncr_sound :
 Proof. exact cpIncr_spec_sound. Qed.
 Print Assumptions C18_cpIncr_sound.
 
-Theorem C18_cpIncr_exact :
-  forall p q k : bytes,
-    cpIncr p = Some q -> last p 0 < 255 -> well_formed k ->
-    ((ble p k = true /\ blt k q = true) <-> is_prefix p k = true).
-Proof. exact cpIncr_spec_exact. Qed.
-Print Assumptions C18_cpIncr_exact.
-
-(** true characterisation for every prefix: [q] is the tight bound [q0] padded with zero bytes to
-    the length of [p]; [p, q) = prefixed keys + the keys of [q0, q) *)
+(** exact for EVERY non-empty prefix, 0xFF runs included *)
 Theorem C18_cpIncr :
   forall p q k : bytes,
     cpIncr p = Some q -> well_formed k ->
-    exists q0, incr_tight p = Some q0 /\ q = q0 ++ repeat 0 (length p - length q0)%nat /\
-      ((ble p k = true /\ blt k q = true) <->
-       (is_prefix p k = true \/ (ble q0 k = true /\ blt k q = true))).
+    ((ble p k = true /\ blt k q = true) <-> is_prefix p k = true).
 Proof. exact cpIncr_spec. Qed.
 Print Assumptions C18_cpIncr.
 
-Theorem C18_cpIncr_refuted :
-  exists p q k : bytes, p <> [] /\ well_formed p /\ well_formed k /\ cpIncr p = Some q /\
-    ble p k = true /\ blt k q = true /\ is_prefix p k = false.
-Proof. exact cpIncr_spec_refuted. Qed.
-Print Assumptions C18_cpIncr_refuted.
+Theorem C18_cpIncr_none_iff :
+  forall p : bytes, cpIncr p = None <-> Forall (fun x => 255 <= x) p.
+Proof. exact cpIncr_none_iff. Qed.
+Print Assumptions C18_cpIncr_none_iff.
 
 (** * PrefixDB *)
 
@@ -60,19 +48,13 @@ Print Assumptions C18_cpIncr_refuted.
     entries outside the namespace are untouched *)
 Theorem C18_prefix_view :
   forall (p : bytes) (m : kvs) (op : kvop),
-    p <> [] -> sorted m -> op_guard p m op ->
+    p <> [] -> sorted m -> wf_keys m ->
     kv_step (view p m) op =
       (view p (fst (prefix_step kv_step p m op)), snd (prefix_step kv_step p m op)) /\
     outside p (fst (prefix_step kv_step p m op)) = outside p m /\
     sorted (fst (prefix_step kv_step p m op)).
 Proof. exact prefix_view. Qed.
 Print Assumptions C18_prefix_view.
-
-Theorem C18_prefix_guard :
-  forall (p : bytes) (m : kvs),
-    wf_keys m -> cpIncr p = None \/ last p 0 < 255 -> riter_guard p m.
-Proof. exact riter_guard_exact. Qed.
-Print Assumptions C18_prefix_guard.
 
 Theorem C18_prefix_iter :
   forall (p : bytes) (m : kvs) (start stop : option bytes),
@@ -84,30 +66,10 @@ Print Assumptions C18_prefix_iter.
 Theorem C18_prefix_riter :
   forall (p : bytes) (m : kvs) (start stop : option bytes),
     p <> [] -> sorted m -> bad_bound start || bad_bound stop = false ->
-    (stop = None -> riter_guard p m) ->
+    (stop = None -> wf_keys m) ->
     priter kv_step p m start stop = (m, OPairs (kv_riter (view p m) start stop)).
 Proof. exact priter_spec. Qed.
 Print Assumptions C18_prefix_riter.
-
-Theorem C18_prefix_riter_refuted :
-  exists (p : bytes) (m : kvs),
-    p <> [] /\ well_formed p /\ store_inv m /\ wf_keys m /\
-    kv_step (view p m) (KRIter None None) = (view p m, OPairs [([5], [1])]) /\
-    prefix_step kv_step p m (KRIter None None) = (m, OPairs []) /\
-    prefix_step mem_step p m (KRIter None None) = (m, OPairs []) /\
-    prefix_step ldb_step p m (KRIter None None) = (m, OPairs []).
-Proof. exact priter_refuted. Qed.
-Print Assumptions C18_prefix_riter_refuted.
-
-Theorem C18_prefix_isolation_refuted :
-  exists (p p' : bytes) (m : kvs) (k v : bytes),
-    is_prefix p p' = false /\ is_prefix p' p = false /\ store_inv m /\
-    let m' := fst (prefix_step kv_step p' m (KSet k (Some v))) in
-    view p m' = view p m /\
-    snd (prefix_step kv_step p m (KRIter None None)) = OPairs [([7], [2])] /\
-    snd (prefix_step kv_step p m' (KRIter None None)) = OPairs [].
-Proof. exact prefix_isolation_refuted. Qed.
-Print Assumptions C18_prefix_isolation_refuted.
 
 (** PrefixDB over the MemDB model / the GoLevelDB model = PrefixDB over the spec *)
 Theorem C18_prefix_over_backends :
@@ -215,6 +177,16 @@ Proof.
 Qed.
 Print Assumptions C18_store_invariant.
 
+(** [wf_keys] (every byte of every stored key < 256) is preserved by well-formed operations *)
+Theorem C18_wf_invariant :
+  forall (p : bytes) (m : kvs) (op : kvop),
+    well_formed p -> op_wf op -> wf_keys m ->
+    wf_keys (fst (kv_step m op)) /\ wf_keys (fst (prefix_step kv_step p m op)).
+Proof.
+  exact (fun p m op Hp Ho Hm => conj (kv_step_wf m op Ho Hm) (prefix_step_wf p m op Hp Ho Hm)).
+Qed.
+Print Assumptions C18_wf_invariant.
+
 (** * Point reads see the last write *)
 
 Theorem C18_last_write_wins :
@@ -245,18 +217,36 @@ Qed.
 
 Example C18_cpIncr_examples :
   cpIncr [115; 255; 0] = Some [115; 255; 1] /\ cpIncr [255; 255] = None /\
-  cpIncr [115; 255] = Some [116; 0] /\ cpIncr [0; 97; 255; 255] = Some [0; 98; 0; 0] /\
-  incr_tight [0; 97; 255; 255] = Some [0; 98].
-Proof. vm_compute. auto. Qed.
+  cpIncr [115; 255] = Some [116] /\ cpIncr [0; 97; 255; 255] = Some [0; 98] /\
+  cpIncr [255; 255; 255] = None /\ cpIncr [255; 0; 255] = Some [255; 1].
+Proof. vm_compute. repeat split. Qed.
 
-Example C18_guards :
-  op_guard [115; 255; 0] C18_store (KRIter None None) /\
-  op_guard [255; 255] C18_store (KRIter (Some [0]) None).
+(** the former counterexamples: prefix [115;255] with the foreign key [116] in the store, on
+    the spec, MemDB and GoLevelDB models *)
+Example C18_fixed_riter :
+  let p := [115; 255] in
+  let m := [([115; 255; 5], [1]); ([116], [3])] in
+  store_inv m /\ wf_keys m /\
+  kv_step (view p m) (KRIter None None) = (view p m, OPairs [([5], [1])]) /\
+  prefix_step kv_step p m (KRIter None None) = (m, OPairs [([5], [1])]) /\
+  prefix_step mem_step p m (KRIter None None) = (m, OPairs [([5], [1])]) /\
+  prefix_step ldb_step p m (KRIter None None) = (m, OPairs [([5], [1])]).
 Proof.
-  split; apply riter_guard_exact; try apply C18_store_ok.
-  - right. reflexivity.
-  - left. reflexivity.
+  split; [split; [simpl; repeat constructor | repeat constructor; simpl; discriminate]|].
+  split; [repeat constructor|]. vm_compute. repeat split.
 Qed.
+
+(** a write through the disjoint sibling namespace [116] no longer disturbs [115;255;255] *)
+Example C18_fixed_isolation :
+  let p := [115; 255; 255] in
+  let m := [([115; 255; 255; 7], [2])] in
+  let m' := fst (prefix_step kv_step [116] m (KSet [0] (Some [9]))) in
+  m' = [([115; 255; 255; 7], [2]); ([116; 0], [9])] /\
+  view p m' = view p m /\
+  snd (prefix_step kv_step p m (KRIter None None)) = OPairs [([7], [2])] /\
+  snd (prefix_step kv_step p m' (KRIter None None)) = OPairs [([7], [2])] /\
+  snd (prefix_step ldb_step p m' (KRIter (Some [7]) None)) = OPairs [([7], [2])].
+Proof. vm_compute. repeat split. Qed.
 
 Example C18_views :
   view [115; 255; 0] C18_store = [([0], [3]); ([97; 255], [4]); ([255], [5])] /\
